@@ -89,8 +89,8 @@ _asn1f_add_unique_row(arg_t *arg, asn1p_expr_t *expr, asn1p_ioc_row_t *row) {
     /* Look for duplicates */
     switch(_asn1f_is_ioc_row_duplicate(expr->ioc_table, row)) {
     case -1:
-        DEBUG("Found Information Object Duplicate in %s", expr->Identifier,
-              expr->_lineno);
+        DEBUG("Found Information Object Duplicate in %s at line %d",
+              expr->Identifier, expr->_lineno);
         return -1;
     case 0:
         /* Not a duplicate */
@@ -356,7 +356,7 @@ _asn1f_parse_class_object_data(arg_t *arg, asn1p_expr_t *eclass,
 			cell = asn1p_ioc_row_cell_fetch(row,
 					chunk->content.token);
 			if(cell == NULL) {
-				FATAL("Field reference %s found in WITH SYNAX {} clause does not match actual field in Object Class %s",
+				FATAL("Field reference %s found in WITH SYNAX {} clause does not match actual field in Object Class %s at line %d",
 					chunk->content.token,
 					eclass->Identifier, eclass->_lineno);
 				if(newpos) *newpos = buf;
